@@ -8,6 +8,7 @@ CONSTANTS
   EofWithData = TRUE
   ShapesA <- LocalShapes
   ShapesB <- AllShapes
+  DevDrainDeadline = FALSE
   DevCloseWriterFallback = FALSE
   Emit = FALSE
   Classes = {1, 2, 3, 4}
@@ -24,10 +25,12 @@ CONSTANTS
   DevSpin = FALSE
   DevNoUnblock = FALSE
   DevAliasFlush = FALSE
+  SockBatch = FALSE
+  DevNoInnerFlush = FALSE
   SockQueue = FALSE
   DevQueueRefs = FALSE
   DevDropOnClose = FALSE
 SPECIFICATION USpec
-INVARIANTS UTypeOK UDatagrams UComplete UCompleteAny UEncoded UFlushed UMutex UBuf
+INVARIANTS UTypeOK UDatagrams UComplete UCompleteAny UEncoded UFlushed UMutex UBuf UBatchFits
 PROPERTIES UDelivMonotone UEventuallyFlushed UTermination
 CHECK_DEADLOCK FALSE
